@@ -47,9 +47,11 @@ func init() {
 			"list layouts = otherwise well-formed small images whose TDVF section list / SEV section list / GUID table is re-arranged and salted with 1..22 degenerate members (zero-sized TempMem, TD-HOB or firmware-volume sections at a free address, at address 0, at or inside another section, at the top of the address space, misaligned, with raw data or the extend attribute; zero-length SEV sections of every kind; table entries without payload, unknown or duplicating a looked-up GUID) placed before / just before / after / around the member the analysis singles out (TD-HOB first, in the middle, penultimate or last; secret and CPUID page), plus every ordering of the lists {BFV, TD-HOB[, TempMem], 1..3 empty TempMem} and {BFV, empty TD-HOB[, TempMem | empty TempMem]} over a 4 KiB image; " +
 			"TD-HOB fit = 64 KiB images with 2..341 sections whose TD-HOB declares the exact length of the hand-off list the analysis writes into it (56 + 48 per section and per unaccepted range + 8) -9, -8, -4, -1, +0, +1 bytes for 0..8 unaccepted ranges, plus page-sized ranges the list fills exactly / misses by one record; " +
 			"concurrent = batches of 8 goroutines making 24 calls each in lock step, one entry point per batch (or a mix), each goroutine on its own small well-formed / list-layout / hostile images (new contents in two calls of three, an exact repeat of an earlier image otherwise, every eighth copied into a buffer that is refilled in place) and its own options, judged for panics (recovered per goroutine), fatal runtime errors, non-termination and the summed budgets; " +
+			"refused x options = the complete cross product, in every run, of 13 images the analysis refuses at different depths (empty, one byte, zero bytes, random bytes, size not a page multiple, broken SEV / TDVF signature, no CPUID section, misaligned section, foreign footer, truncated table, no TD-HOB; one valid control) with 12 option shapes that change how much work a request fans out into (all VMSA counts with every product incl. unknown ones, two / an unsold VMSA count, bad family id, no / all / unknown / repeated machine shapes with early accept, no banks, a hostile draw), every entry point; " +
+			"sum wrap = 384 KiB..2 MiB images with 1000..16 000 firmware-volume sections that each cover (most of) the whole file at disjoint guest addresses so that the declared sizes add up to w x 2^32 + the image size (every single field in range), with controls (sum off by a page, exactly w x 2^32, a small multiple of the size, the exact size); " +
 			"launch options = vCPU count (incl. 0, negative), product (incl. unknown), endorsement request ids, machine shapes (incl. unknown), early-accept, arbitrary RAM bank lists. " +
 			"Every case runs through GetFwGUIDToBlockMap, SevData.ExtractFromFirmware, sev.LaunchDigest, sev.UnsignedSnp, the three ovmf.ExtractMaterialGuestPhysicalRegions*, tdx.MRTD in default / legacy / early-accept / custom-bank modes and tdx.UnsignedTDX in a child process under ulimit -v 6 GiB. " +
-			"A call refutes the property when it panics, kills the process, uses more thread CPU than (10 s + 2 s/MiB of image) or allocates more than (256 MiB + 512 bytes per image byte), each multiplied by the number of measurements the call was asked for. " +
+			"Every call runs on its own goroutine and thread. A call refutes the property when it panics, kills the process, does not return while the whole process stays idle (less than 160 ms of process CPU time over 32 consecutive samples spanning at least 16 s, with the call's goroutine parked on a channel / lock / wait group and no goroutine able to run: rule non-termination:call-blocked-without-using-cpu; that entry point is then not called with that shape of options again in the process), uses more thread CPU than (10 s + 2 s/MiB of image) or allocates more than (256 MiB + 512 bytes per image byte), each multiplied by the number of measurements the call was asked for. " +
 			"non-trivial = a call on an image whose mutated fields belong to what that entry point parses (GUID table and whole-image mutations: every entry point; SEV fields: the SEV entry points; TDVF fields: the TDX entry points), or on a well-formed image; distinct = (first mutated field = value class [+ number of further mutations] | entry point | outcome class) cells (list layouts: arrangement = kind of degenerate member, without their number; directed layouts: the ordering), outcome = ok, PANIC or the error text with numbers stripped",
 		Assumptions: []string{
 			"the budget is the reading of 'unrelated to its size' that is enforced: CPU <= 10 s + 2 s/MiB, allocated bytes <= 256 MiB + 512*len(image), per measurement requested (UnsignedSnp with 15 vCPU counts gets 15x, UnsignedTDX with k shapes and early-accept 2k+1)",
@@ -58,6 +60,8 @@ func init() {
 			"an allocation watchdog inside the worker stops a call once it has allocated 1 GiB more than its budget and reports it the way the runtime reports out-of-memory (so that a defective tree cannot exhaust the machine); a call that stays inside its budget is never stopped",
 			"errors are never judged (the property is about totality, not about which images are accepted); acceptance of well-formed images is only a floor",
 			"'every byte string and every launch option' does not restrict the process in which the analysis runs: earlier calls in the same process (every shard is one process; counters sequence/*) and calls of other goroutines on other images are part of the quantifier, so state the library would keep process-wide (a cache, a pool, a scratch buffer, a lazily built table) is exercised; under concurrency only panics, fatal runtime errors, non-termination and the summed budget of the batch are judged (per-call CPU and allocation cannot be told apart while calls overlap)",
+			"a call that is parked for good is told from one that is slow by what the process consumes, not by a deadline: a live call on a loaded machine keeps receiving CPU time (the samples are taken by the same process, so a process that is not scheduled does not collect them), a goroutine parked on a channel, lock or wait group while nothing else in the process can run never wakes; an idle stretch in which some goroutine is runnable, in a system call, sleeping or waiting for I/O is counted and not judged",
+			"the calls of the sum-wrap stratum that would measure an image whose wrapping sum the parse accepted are behind the constant judgeFvSizeSumWrap (wrap.go): while it is false they are not made (counted under sum-wrap/...), because on a tree that adds the volume sizes up in 32 bits each costs 12..50 s of CPU and gigabytes of allocation and refutes the property (reported finding); the parse-only entry points and the cheap measuring mode still run on these images",
 			"the -race/checkptr replay of the design is not run: the anchored packages contain no unsafe or cgo code and -race binaries cannot run under ulimit -v",
 		},
 		ShardsQuick: 16, ShardsThor: 16, TimeoutS: 900, TimeoutThor: 3600, UlimitVKB: 6 << 20, Run: run,
@@ -270,7 +274,20 @@ var wd struct {
 	limit atomic.Uint64
 	bud   atomic.Uint64
 	entry atomic.Value
-	mu    sync.Mutex // held by the watchdog from its decision to the exit, and by the call when it disarms
+	mu    sync.Mutex    // held by the watchdog from its decision to the exit, and by the call when it disarms
+	kick  chan struct{} // wakes the watchdog when a call is armed (it is parked, not polling, while none is)
+}
+
+// arm opens the watched window of one call.
+func arm(entry string, budget, heapNow uint64) {
+	wd.entry.Store(entry)
+	wd.bud.Store(budget)
+	wd.limit.Store(budget + allocStopAt)
+	wd.start.Store(heapNow | 1)
+	select {
+	case wd.kick <- struct{}{}:
+	default:
+	}
 }
 
 // disarm ends the watched window. If the watchdog has already decided to stop this call, disarm never
@@ -288,13 +305,32 @@ func heapAllocs(s []metrics.Sample) uint64 { metrics.Read(s); return s[0].Value.
 // 6 GiB address-space limit would. The supervisor attributes the death to the logged case.
 func allocWatchdog() {
 	s := []metrics.Sample{{Name: "/gc/heap/allocs:bytes"}}
+	var lastSt, lastNow uint64
+	quiet := 0 // consecutive polls of the same call during which nothing was allocated
 	for {
-		time.Sleep(5 * time.Millisecond)
+		// a call that has not allocated for a second (it computes in place, or it is parked) is polled twenty
+		// times less often, so that a parked call leaves the process idle (mon.go); the first poll that sees
+		// the counter move is back at 5 ms
+		if wd.start.Load() == 0 {
+			quiet = 0
+			<-wd.kick // parked until a call is armed
+		}
+		if quiet > 200 {
+			time.Sleep(100 * time.Millisecond)
+		} else {
+			time.Sleep(5 * time.Millisecond)
+		}
 		st := wd.start.Load()
 		if st == 0 {
 			continue
 		}
 		now := heapAllocs(s)
+		if st == lastSt && now == lastNow {
+			quiet++
+		} else {
+			quiet = 0
+		}
+		lastSt, lastNow = st, now
 		if now <= st {
 			continue
 		}
@@ -625,6 +661,7 @@ func (tb) Helper()                           {}
 func (tb) Fatalf(format string, args ...any) { panic(fmt.Sprintf(format, args...)) }
 
 func run(c *core.Ctx) {
+	wd.kick = make(chan struct{}, 1)
 	go allocWatchdog()
 	c.Floor("builder-reproduces-fakeovmf.CleanExample", checkBuilder())
 
@@ -641,7 +678,7 @@ func run(c *core.Ctx) {
 	largeOK, listOK, listRefused := 0, 0, 0
 	generatorOK := true
 	prevFailed := false
-	ms := []metrics.Sample{{Name: "/gc/heap/allocs:bytes"}}
+	mo := newMonitor(c)
 
 	// A tree on which a layout case ends the process (a hang stopped by the CPU watchdog, the allocation
 	// watchdog, a fatal error) is refuted by that case. Every such death costs 3x the CPU budget, and a
@@ -725,21 +762,23 @@ func run(c *core.Ctx) {
 					continue
 				}
 			}
+			shape := optShape(e.name, &cs.opts)
+			if why := mo.stoppedWhy(e.name, shape); why != "" {
+				// never taken on a tree without such a verdict
+				c.Count("not-called-after-"+why+"/"+e.name+"/"+shape, 1)
+				continue
+			}
 			var in []byte
 			if first {
 				in, first = input, false
 			}
 			c.Begin(i, gname, e.name, in)
 			b := budget(len(fw), e.nmeas(&cs.opts))
-			wd.entry.Store(e.name)
-			wd.bud.Store(b.Alloc)
-			wd.limit.Store(b.Alloc + allocStopAt)
-			wd.start.Store(heapAllocs(ms) | 1)
-			var err error
-			m := c.Guard(i, e.name, gname, b, func() {
-				defer disarm()
-				err = e.call(fw, &cs.opts)
-			})
+			m, err, st := mo.run(i, e.name, gname, b, shape, false, func() error { return e.call(fw, &cs.opts) })
+			if st != stReturned {
+				c.Cell("%s|%s|NO-RETURN", cellKey, e.name)
+				continue
+			}
 			if m.Panicked {
 				c.Cell("%s|%s|PANIC", cellKey, e.name)
 				c.Count("panic/"+e.name, 1)
@@ -800,7 +839,7 @@ func run(c *core.Ctx) {
 		c.End(i)
 	}
 	// the strata appended behind the layout stratum (ext.go)
-	if !runExt(c, ents, layout0, layout0+len(dirL)+nL) {
+	if !runExt(c, mo, ents, layout0, layout0+len(dirL)+nL) {
 		generatorOK = false
 	}
 	for _, e := range ents {
